@@ -8,4 +8,4 @@ Separate Extraction
   Gen_P4.pvSetHashProbe Gen_P4.Remove Gen_P4.GetHashCodePart Gen_P4.pvGetCount Gen_P4.pvCalcShortHash Gen_P4.pvGetProbeShift
   Gen_P4.GetNextBucketIndex Gen_P4.pvSetEmpty
   Gen_One.AddCrt Gen_One.Remove Gen_One.GetHashCodePart Gen_One.IsFull Gen_One.pvGetHashState
-  P4_Model.p4_add Gen_P4A.AddCrt Gen_P4A.Remove Gen_P4A.WasFull Gen_P4A.pvGetMemPoolIndex Gen_P4A.Clear TableO2.find TableP4.pfind TableOne.ofind TableO2.add_nogrow TableP4.padd_nogrow TableO2.migrate TableO2.insert_all TableO2.empty_table TableO2.migrate_from_c TableO2.migrate_gens TableO2.remove_at TableO2.locate_from TableP4.pmigrate TableP4.pinsert_all TableP4.pempty_table TableP4.premove_at TableP4.plocate_from TableP4.pmigrate_from_c TableP4.pmigrate_gens TableOne.omigrate TableOne.oinsert_all TableOne.oempty_table TableOne.oremove_at TableOne.olocate_from Gen_One.WasFull Gen_Base.GetMaxProbe Gen_P4.IsFull Coq.Init.Nat.pred.   (* Nat.pred: lib/zutil.ml needs the extracted Datatypes.nat *)
+  P4_Model.p4_add Gen_P4A.AddCrt Gen_P4A.Remove Gen_P4A.WasFull Gen_P4A.pvGetMemPoolIndex Gen_P4A.Clear TableO2.find TableO2.find_gens TableP4.pfind_gens TableP4.pfind TableOne.ofind TableO2.add_nogrow TableP4.padd_nogrow TableO2.migrate TableO2.insert_all TableO2.empty_table TableO2.migrate_from_c TableO2.migrate_gens TableO2.remove_at TableO2.locate_from TableP4.pmigrate TableP4.pinsert_all TableP4.pempty_table TableP4.premove_at TableP4.plocate_from TableP4.pmigrate_from_c TableP4.pmigrate_gens TableOne.omigrate TableOne.oinsert_all TableOne.oempty_table TableOne.oremove_at TableOne.olocate_from Gen_One.WasFull Gen_Base.GetMaxProbe Gen_P4.IsFull Coq.Init.Nat.pred.   (* Nat.pred: lib/zutil.ml needs the extracted Datatypes.nat *)
